@@ -204,6 +204,7 @@ def drive(
     col: Collector,
     shrink: bool = True,
     max_failures: int = 3,
+    keep_minimal: bool = False,
 ):
     """Run ``check(desc, col)`` on ``n`` Hypothesis-generated descriptors.
 
@@ -219,11 +220,20 @@ def drive(
     seen_keys: set[str] = set()
     for attempt in range(max_failures):
         last: dict = {}
+        state = {"first": True}
 
+        # Hypothesis always starts with the all-minimal example; with 16 shards that is the same
+        # case 16 times, so only shard-attempt 0 ... keeps it: every run spends one extra example
+        # and skips the first one unless the caller asks for it (keep_minimal).
         @hypothesis.seed(hash32(seed, attempt))
-        @_settings(n, shrink)
+        @_settings(n + (0 if keep_minimal else 1), shrink)
         @given(strategy)
         def t(desc):
+            if state["first"]:
+                state["first"] = False
+                if not keep_minimal:
+                    col.labels["skipped_minimal_example"] += 1
+                    return
             if col.over_budget():
                 return
             try:
